@@ -3,10 +3,25 @@
 import json, subprocess
 
 CHECKS = {
+ "C01": dict(level="exploration", design="§3 C01", technique="bounded-exhaustive enumeration of (dataset, query) pairs executed on the real engine, SPARQL-algebra reference evaluator as oracle",
+   text="Every query of a generator grammar (all sequences of <=2, thorough <=3, pattern elements from ~90 shapes: triple templates, GRAPH, UNION, nested groups, sub-SELECTs, FILTER at every position, BIND, VALUES/UNDEF, every solution modifier) is executed on every subset of a 10-quad universe (quick: the sparse and the near-full subsets; thorough: all 2048 incl. an empty named graph) through execute_sparql_query and the legacy entry point, and compared with an independent implementation of the SPARQL 1.1 algebra (multiset equality, sortedness, legal LIMIT cut). Exhaustive inside the stated grammar and universe; the oracle is independent of the code under test.",
+   note="Bounded grammar and 10-quad universe; value model as Kolibrie documents it (bare lexical forms, numeric comparison only between numerics); reference evaluator trusted (self-tested)."),
+ "C09": dict(level="exploration", design="§3 C09", technique="bounded-exhaustive enumeration of timestamp streams x width x slide on the real CSPARQLWindow, interval oracle from the statement",
+   text="Every non-decreasing timestamp sequence (length <=5 over 0..8, thorough <=7 over 0..12) x width x slide (1..4, thorough 1..6) is fed to a real CSPARQLWindow through four consumer paths (callback, channel, both, WindowRunner) and every reported content is compared with the aligned-interval oracle of the statement (content = one interval [c-width,c), c multiple of slide and <= trigger; strictly increasing triggers; non-decreasing intervals; every non-empty closing interval reported exactly once when gaps <= slide).",
+   note="OnWindowClose report strategy with time-driven tick (two conjunction strategies on the safety clauses only); bounds on stream length/time range; reference in harness/src/reference/window.rs."),
+ "C12": dict(level="model_checking", design="§3 C12", technique="explicit-state BFS over stream histories (arrive/tick/evaluate) driving the real incremental_sds_plus, de-duplicated on the full time-relative state, (max,min) fixpoint oracle + undeduplicated tree cross-check",
+   text="112 configurations (7 rule sets x alpha pairs x static graph x eviction mode), each an explicit-state search over arrive/tick/evaluate histories (depth 6 quick, 9 thorough) on the real incremental_sds_plus with the carried SdsWithExpiry in the state; at every evaluate the per-component fact sets and every expiry are compared with a naive (max,min) fixpoint over the alive facts and with the real naive_sds_plus.",
+   note="Two windows, three triples per window, alpha in {2,3}; rule sets over window-annotated predicates only; pass/fail assumed invariant under uniform time shift (cross-checked by an undeduplicated tree search)."),
+ "C15": dict(level="model_checking", design="§3 C15", technique="explicit-state BFS over encode/decode/quoted-encode sequences on the real Dictionary/QuotedTripleStore + exhaustive pairs of databases built by short op sequences for union",
+   text="Part 1: BFS (depth 5 quick, 6 thorough) over encode / quoted-encode operations on the real Dictionary and QuotedTripleStore, de-duplicated on the exact physical state, with the bijection / stability / disjoint-range / structural-identity invariants checked in every state. Part 2: every ordered pair of the distinct databases reachable by <=3 (thorough <=4) operations over 10 population ops is united with the real SparqlDatabase::union and compared lexically with the union of the two abstract datasets (quads, graph identities incl. empty graphs, quoted terms, probability seeds); operands must denote the same dataset afterwards.",
+   note="Small vocabularies; probabilities are a function of the triple (conflicting seeds are not generated); reference in harness/src/reference/termdb.rs."),
  "C04": dict(level="model_checking", design="§3 C04", technique="explicit-state search (BFS to closure, fingerprint de-dup) + plain tree search over store operations on the real DatasetIndex, set-model oracle in every state",
    text="Explicit-state model checking of the real store: BFS over 41 operations (insert/delete of 12 quads, graph create/clear/drop, clear, rebuild, facade aliases) until the reachable physical state set closes (4 624 states), plus an undeduplicated tree search of every op sequence up to depth 3 (quick) / 4 (thorough); the full observation table (every lookup shape x graph, named/merged/membership/listing, QueryBuilder) is compared with a BTreeSet model in every state. Right level: the property is a history property of a small finite-state object.",
    note="Bounded universe (2 subjects, 2 objects, 1 predicate, 3 graphs); reference model and H3 fingerprint hook are trusted; larger universes only by symmetry."),
 }
+
+# checks that exist but must not be claimed yet (red on the unchanged tree until a fix/finding lands)
+PENDING = {'C01': 'check built; AVG-of-empty-group fix pending', 'C17': 'check built; format_parse_error fix pending'}
 
 NOT_YET = {
 }
@@ -16,7 +31,7 @@ def main():
     ids = [p['id'] for p in props]
     checks = []
     for pid in ids:
-        if pid not in CHECKS: continue
+        if pid not in CHECKS or pid in PENDING: continue
         c = CHECKS[pid]
         checks.append({
             "property_id": pid,
@@ -29,7 +44,7 @@ def main():
             "level_note": c["note"],
             "technique": c["technique"],
         })
-    na = [{"property_id": pid, "reason": NOT_YET.get(pid, "check not built yet in this session (planned, see DESIGN.md §3); nothing is claimed for it")} for pid in ids if pid not in CHECKS]
+    na = [{"property_id": pid, "reason": PENDING.get(pid) or NOT_YET.get(pid, "check not built yet in this session (planned, see DESIGN.md §3); nothing is claimed for it")} for pid in ids if pid not in CHECKS or pid in PENDING]
     try:
         hooks = subprocess.check_output(['git','-C','/repo','log','--format=%H %s','--grep=^hook','-i'], text=True).strip().splitlines()
     except Exception:
